@@ -52,6 +52,10 @@ structure Variant where
 
 def expectedVariant : Variant := ⟨true, .lastWaiter, true⟩
 
+/-- fingerprint of the bodies of `Get`, `getFromCache` and `notifier.notify` (hook statements stripped) that this model
+was written against; the extractor recomputes it from the working tree on every run -/
+def expectedGetFingerprint : String := "b5f25eb386f8a8ad"
+
 structure S where
   cache   : Name → Option Val
   notif   : Name → Option Nat       -- notifierMap: name ↦ notifier id
